@@ -264,6 +264,9 @@ pub fn sensitive_set() -> Vec<String> {
         "zzz9".to_string(),
         "ü💩".to_string(),
         "abab q".to_string(),
+        // a pair whose order flips under case folding ("Bc" < "ad" but "bc" > "ad")
+        "Bc".to_string(),
+        "ad".to_string(),
     ]
 }
 
